@@ -1,5 +1,5 @@
 """Property -> rules registry."""
-from .rules import kernel, incr, rot, sched, meas, integrator, kal, purity, diff, sensor
+from .rules import kernel, incr, rot, sched, meas, integrator, kal, purity, diff, sensor, layout
 
 PROPS = {
     'C01': dict(
@@ -141,6 +141,30 @@ PROPS = {
                  'correction is the inverse form of the simulated error; sampling-interval '
                  'exponents of bias / white noise / bias walk'],
         undecided=['empirical variances of simulated noise', 'numerical inverse property']),
+    'C11': dict(
+        rules=[layout.layout_state, layout.layout_noise, layout.layout_prov, layout.p0_form,
+               layout.rec_order, kal.q_psd,
+               lambda c: sched.sched_pair(c, (sched.FF,)),
+               lambda c: sched.sched_handover(c, (sched.FF,))],
+        decided=['state and noise block layout contiguous, disjoint and identical in all six '
+                 'functions', 'every block is fed from / read into the model that owns it',
+                 'initial covariance is the congruence T P_pva T^T with each sigma squared at its '
+                 'own component', 'x and P propagated with one (Phi, Qd); corrections precede '
+                 'recording precede propagation', 'Q is G diag(q^2) G^T; step = interval of the '
+                 'averaged states'],
+        undecided=['numerical equality of estimates, covariances and innovations with an '
+                   'independent batch (Gauss-Markov) solution']),
+    'C12': dict(
+        rules=[layout.est_rules, sensor.sm_accum, sensor.sm_sign,
+               lambda c: sched.sched_handover(c, (sched.FB,))],
+        decided=['both filters reset both sensor models before any use (re-run reproducibility)',
+                 'feedback effects (set_pva, update_estimates, correct) only inside the '
+                 'measurement-due block: with no epoch in the span the loop is plain integration '
+                 'of corrected increments with reset (neutral) estimates',
+                 'each consumer of the error vector receives its own block',
+                 'estimates enter the correction with the sign opposite to their attribution'],
+        undecided=['bit-identity with plain integration (floating point: solve(I, v - 0*dt))',
+                   'second-order agreement with the feedforward filter']),
 }
 
 
